@@ -40,7 +40,7 @@ go build -o $out/olareg /repo/cmd/olareg 2>/dev/null || (cd /repo && go build -o
 while read c i pkg v variant env; do
   mkcopy $v
   bin=$out/bin-$pkg-$v
-  [ -x $bin ] || (cd $out/src-$v && go build -tags verif -cover -covermode=atomic -coverpkg=$pkgs -o $bin ./internal/verif/$pkg) || { echo "build failed $pkg $v"; continue; }
+  [ -x $bin ] || (cd $out/src-$v && go build -tags verif -cover -covermode=atomic -coverpkg=./... -o $bin ./internal/verif/$pkg) || { echo "build failed $pkg $v"; continue; }
   w=$out/run-$c-$i; mkdir -p $w $out/data/$c
   (cd $w && env $env GOCOVERDIR=$out/data/$c VERIF_ID=$c VERIF_SEED=1 VERIF_TIER=quick VERIF_WORK=$w VERIF_OUT=$w/out.jsonl VERIF_VARIANT=$variant VERIF_REPO=/repo VERIF_DIR=$V VERIF_OLAREG=$out/olareg timeout 900 $bin >stdout.txt 2>stderr.txt; echo "$c/$i $pkg [$variant] exit $?")
   rm -rf $w
